@@ -117,7 +117,7 @@ def sample2d_rules(prog: Program, rep: Report) -> None:
     rep.check("R16.3", fi.qual, "outside the grid with a mask: outside_value is the outermost substitution", okm, what_bad=f"result is {vtext(resm)[:200]}: for a point outside the grid the undefined-value test of the dummy cell decides what is returned", what_ok="where(outside, outside_value, where(undefined, undef_value, mean))", loc=fi.loc())
     # the outside predicate: 0 <= x < imax-1 etc. (uses shape F.shape = (jmax, imax))
     want_parts = ["lt(X;0)", "lt(Y;0)"]
-    rep.check(rule, fi.qual, "outside predicate covers all four sides", all(p in cond for p in want_parts) and "ge(X;-1 + shape:F[1])" in cond and "ge(Y;-1 + shape:F[0])" in cond, what_bad=f"predicate {cond}", what_ok="x<0 | x>=imax-1 | y<0 | y>=jmax-1", loc=fi.loc())
+    rep.check(rule, fi.qual, "outside predicate covers all four sides", all(p in cond for p in want_parts) and ("ge(X;-1 + shape:F[1])" in cond or "le(-1 + shape:F[1];X)" in cond) and ("ge(Y;-1 + shape:F[0])" in cond or "le(-1 + shape:F[0];Y)" in cond), what_bad=f"predicate {cond}", what_ok="x<0 | x>=imax-1 | y<0 | y>=jmax-1", loc=fi.loc())
     # shape unpacking jmax, imax = F.shape
     shp = [n for n in walk_no_nested(fi.node) if isinstance(n, ast.Assign) and unparse(n.value) == "F.shape"]
     rep.check(rule, fi.qual, "jmax, imax = F.shape (y first)", len(shp) == 1 and unparse(shp[0].targets[0]) in ("(jmax, imax)", "jmax, imax"), what_bad="axis order of the shape", what_ok="ok", loc=fi.loc())
